@@ -1077,8 +1077,28 @@ struct FGen {
         continue;
       }
       if (callees && !callee_idx.empty() && r.chance(1, 4)) {
-        if (gen_call(s))
+        if (gen_call(s)) {
           b.stmts.push_back(s);
+          // a burst of calls to the same function with other constant arguments:
+          // several calling contexts of one callee (summary reuse, context joining)
+          if (r.chance(1, 3)) {
+            size_t nout = (size_t)s.n.at(0).get_ui();
+            int more = (int)r.range(1, 2);
+            for (int k = 0; k < more; k++) {
+              for (size_t a = nout; a < s.v.size(); a++) {
+                const VarDecl *d = f.var(s.v[a]);
+                if (!d || d->ty != Ty::INT ||
+                    std::find(ints_wr.begin(), ints_wr.end(), s.v[a]) == ints_wr.end())
+                  continue;
+                Stmt as = mk(Op::ASSIGN);
+                as.v = {s.v[a]};
+                as.e = {LinExp(mpz_class((long)r.range(-2, 3)))};
+                b.stmts.push_back(as);
+              }
+              b.stmts.push_back(s);
+            }
+          }
+        }
         continue;
       }
       if (gen_stmt(s))
